@@ -370,6 +370,23 @@ func c09psRequest(e common.Env, p *common.Part, n, t, L int, rng *mrand.Rand) {
 		try(fmt.Sprintf("proof response X[%d]", i), "from another request", func(r *ps.RawBlindSignature, pr *ps.RawBlindCorrectProof) { pr.X[i] = pb.X[i%len(pb.X)] })
 	}
 	try("whole proof", "from another request", func(r *ps.RawBlindSignature, pr *ps.RawBlindCorrectProof) { *pr = pb })
+	// coordinated alteration: the commitment is shifted by k*g_last and the transmitted m' by -k, so that the sum the proof
+	// speaks about stays the same; a signer that derives m' from the commitment it received must reject
+	if gLast, ok := psLastGenerator(L); ok {
+		for _, k := range []int64{1, 5} {
+			k := k
+			try("commitment CM", fmt.Sprintf("+%d*g_last with the transmitted m' lowered by %d", k, k), func(r *ps.RawBlindSignature, pr *ps.RawBlindCorrectProof) {
+				cm, err := curve.NewG1FromBytes(r.CM)
+				if err != nil {
+					return
+				}
+				cm.Add(gLast.Mul(curve.NewZrFromInt(k)))
+				r.CM = cm.Bytes()
+				r.MPrime = curve.ModSub(curve.NewZrFromBytes(r.MPrime), curve.NewZrFromInt(k), curve.GroupOrder).Bytes()
+			})
+		}
+		p.Count("coordinated_alterations", 1)
+	}
 	// the exported SignBlindSignature on the same BlindSignature value, twice
 	pp := ps.Setup(curve, L)
 	sk, _ := ps.LocalKeyGen(pp)
@@ -607,4 +624,19 @@ func unitC09(e common.Env, p *common.Part) {
 			}
 		}
 	}
+}
+
+// psLastGenerator reads the last commitment generator out of the scheme's serialised public parameters.
+func psLastGenerator(L int) (*math.G1, bool) {
+	pp := ps.Setup(curve, L)
+	var raw ps.RawPP
+	if _, err := asn1.Unmarshal(pp.Bytes(), &raw); err != nil || len(raw.Data) < 4 {
+		return nil, false
+	}
+	var gs ps.XYs
+	if _, err := asn1.Unmarshal(raw.Data[3], &gs); err != nil || len(gs.Ys) == 0 {
+		return nil, false
+	}
+	g, err := curve.NewG1FromBytes(gs.Ys[len(gs.Ys)-1])
+	return g, err == nil
 }
